@@ -150,6 +150,7 @@ type TextObs struct {
 	Unpositioned  []string `json:"unpositioned,omitempty"`
 	NonDet        string   `json:"nondeterminism,omitempty"`
 	RuleOrder     bool     `json:"rule_order_only,omitempty"`
+	AppACLOrder   bool     `json:"app_acl_order_only,omitempty"`
 }
 
 var posRe = regexp.MustCompile(`^[^\s:]+:\d+:\d+:`)
@@ -214,6 +215,10 @@ func Observe(pkgs []c17.PkgText) (TextObs, Result) {
 			o.Deterministic, o.NonDet = false, what+": "+r1.Stage+" vs "+r.Stage
 		case r1.Stage == "ok" && r.Stage == "ok" && !reflect.DeepEqual(c17.Canon(*r1.Dump), c17.Canon(*r.Dump)):
 			o.Deterministic, o.NonDet = false, what+": definitions differ"
+		case raw && r1.Stage == "ok" && r.Stage == "ok" && r1.Dump.AppACLDigest != r.Dump.AppACLDigest && sameBut(*r1.Dump, *r.Dump):
+			// per-workspace ACLs equal, only the application-wide list IAppDef.ACL() is in another order
+			// (was C16-F8, fixed 4db55a7c2: the comparison is exact, this branch only names the regression)
+			o.Deterministic, o.NonDet, o.AppACLOrder = false, what+": application-wide ACL order differs", true
 		case raw && r1.Stage == "ok" && r.Stage == "ok" && !reflect.DeepEqual(*r1.Dump, *r.Dump):
 			// exact comparison, rule order included; equal up to the order of the rules of one statement
 			// was C16-F2 (fixed 87b96bf82)
@@ -221,9 +226,20 @@ func Observe(pkgs []c17.PkgText) (TextObs, Result) {
 		}
 	}
 	same("second compilation", compileOnce(pkgs), true)
+	if len(pkgs) >= 3 {
+		// several application packages: whatever ranges over the map of packages shows only now and then
+		for i := 0; i < 4 && o.Deterministic; i++ {
+			same("repeated compilation", compileOnce(pkgs), true)
+		}
+	}
 	if o.Deterministic && (len(pkgs) > 1 || len(pkgs[0].Files) > 1) {
 		// statement order over files is part of the program: compared up to rule order
 		same("reversed package/file order", compileOnce(permuted(pkgs)), false)
 	}
 	return o, r1
+}
+
+func sameBut(a, b c17.Dump) bool {
+	a.AppACLDigest, b.AppACLDigest = "", ""
+	return reflect.DeepEqual(a, b)
 }
